@@ -49,6 +49,35 @@ def strategy(tier):
     return strategy_()
 
 
+def matrix(tier):
+    """Exhaustive core: every record kind x every formal argument: two same-identifier records that agree on everything
+    (merge) / where the second omits the argument (merge) / where the second disagrees on exactly that argument (refusal),
+    at document level and inside a bundle."""
+    n = lambda l: {"ns": "http://a/", "local": l, "prefix": "ex", "as": "qn"}
+    head = [["ns", 0, "ex", "http://a/"], ["bundle", n("b1"), "bundle"]]
+    for kind in spec.KIND_LIST:
+        fargs = spec.formal_args(kind)
+        via = "factory" if spec.KINDS[kind][6] else "new_record"
+        full = {}
+        for i, (a, t) in enumerate(fargs):
+            full[a] = {"name": n("arg%d" % i)} if t == "ref" else {"t": "2012-03-02T10:30:0%d" % i, "as": "dt"}
+        attrs1 = [[n("k"), {"k": "int", "v": 1}]]
+        attrs2 = [[n("k"), {"k": "int", "v": 2}], [n("k2"), {"k": "str", "v": "x"}]]
+        for scope in (0, 1):
+            variants = [("same", dict(full))]
+            for j, (a, t) in enumerate(fargs):
+                if kind == "membership" and a == "entity":
+                    continue
+                if j >= spec.mandatory(kind):
+                    variants.append(("omit:" + a, {k: v for k, v in full.items() if k != a}))
+                other = dict(full)
+                other[a] = {"name": n("other%d" % j)} if t == "ref" else {"t": "1999-01-01T00:00:00", "as": "dt"}
+                variants.append(("conflict:" + a, other))
+            for label, second in variants:
+                ops = head + [["rec", scope, kind, n("r1"), dict(full), attrs1, via], ["rec", scope, kind, n("r1"), second, attrs2, via]]
+                yield {"profile": "json", "ops": ops, "collisions": [], "misses": 0, "cell": [kind, scope, label]}
+
+
 def _expand(case):
     """materialise the collision records as ordinary rec ops appended to the recipe"""
     ops = list(case["ops"])
